@@ -259,13 +259,18 @@ def spec_rqs(knots=1, interval=(-2, 2)):
         out = []
         n = knots + 2
         for nm in ("x_pos", "y_pos"):
-            arr = s.sym[nm]
-            arr[0] = Fraction(A)
-            arr[n - 1] = Fraction(B)
+            arr = [jx.toreal(v) for v in s.sym[nm]]
             out += [arr[i] < arr[i + 1] for i in range(n - 1)]
         out += [v > 0 for v in s.sym["derivatives"]]
         return out
-    sp = Spec(f"RQS(K={knots},interval={interval})", b, inv=inv, x_cases=rqs_cases("x_pos", "y_pos"), y_cases=rqs_cases("y_pos", "x_pos"),
+
+    def override(s):
+        # the interval ends are static python numbers: keep them concrete in the knot vectors
+        for nm in ("x_pos", "y_pos"):
+            arr = s.P_sym[s.P_names.index(nm)]
+            arr[0] = Fraction(A)
+            arr[knots + 1] = Fraction(B)
+    sp = Spec(f"RQS(K={knots},interval={interval})", b, inv=inv, sym_override=override, x_cases=rqs_cases("x_pos", "y_pos"), y_cases=rqs_cases("y_pos", "x_pos"),
               kappa=1e3, note="knots strictly increasing from interval[0] to interval[1] (ends concrete), derivatives > 0 (proved for the wrapper in C11)")
     sp.interval = (Fraction(A), Fraction(B))
     return sp
@@ -298,13 +303,18 @@ def spec_planar(dim=2, cond=False, leaky=True):
         dt, do, di = jx.split(dot)
         lem = z3.And(jx.toz(jx.band(do, di == 0)), jx.toreal(dt) > -1)
         st, _ = jx.check(ctx, assume, lem, name="seed: w.u_hat > -1")
-        if st != "unsat" or any(not jx.is_z(v) for v in uh):
+        uht = [jx.split(v)[0] for v in uh]
+        oks = jx.band(*[jx.band(jx.split(v)[1], jx.split(v)[2] == 0) for v in uh])
+        if st == "unsat" and oks is not True:
+            st, _ = jx.check(ctx, assume, jx.toz(oks), name="seed: u_hat defined")
+        if st != "unsat" or any(not jx.is_z(v) for v in uht):
             return []
         # cut: u_hat becomes fresh variables constrained only by the proved lemma
         fr = symarr("uhat", (dim,))
+        s._uhat = fr
         for i in range(dim):
-            I.abstract[uh[i].get_id()] = fr[i]
-        ctx.keep += list(uh)
+            I.abstract[uht[i].get_id()] = fr[i]
+        ctx.keep += list(uht)
         return [sum((jx.toreal(p[i]) * fr[i] for i in range(dim)), z3.RealVal(0)) > -1]
     return Spec(f"Planar(d={dim},{'leaky_relu' if leaky else 'tanh'}{',cond' if cond else ''})", b, inv=inv, has_inverse=leaky, seed=seed,
                 tags=("planar",), note="w != 0 (get_act_scale divides by |w|^2); lemma w.u_hat > -1 proved from the traced get_act_scale and seeded")
@@ -327,6 +337,8 @@ LEAVES = {
     "affine2": lambda: spec_affine((2,)),
     "affine22": lambda: spec_affine((2, 2)),
     "affine0": lambda: spec_affine(()),
+    "affine_bcast": lambda: Spec("Affine(loc(3,),scale())", fb.Affine(jnp.array([0.5, -1.0, 2.0]), 2.0), inv=_nonzero("scale"), note="loc and scale broadcast by the constructor"),
+    "affine_bcast2": lambda: Spec("Affine(loc(2,3),scale(3,))", fb.Affine(jnp.arange(6.0).reshape(2, 3), jnp.array([2.0, 0.5, 3.0])), inv=_nonzero("scale")),
     "loc": spec_loc,
     "scale": spec_scale,
     "tri2l": lambda: spec_triangular(2, True),
